@@ -53,6 +53,11 @@ RULE_DOC = {
     "C16-items": "collecting impls append every element before requesting the next",
     "C18-items": "collecting impls append every element before requesting the next",
     "C12-lands": "realloc returns Ok only after recording the requested capacity",
+    "T9-retain": "retain writes back exactly the chars the predicate accepted, cursors advance by the char width",
+    "T10-views": "len / is_empty / as_str / as_bytes are the storage views; is_empty = (len() == 0)",
+    "C18-wrap": "public wrappers pass their storage-layer operation on every path, argument unchanged",
+    "C20-taint": "caller-supplied sizes reach only checked / saturating arithmetic (no profile-dependent overflow)",
+    "C11-append": "push_str / insert_str allocate only through reserve",
     "FLOOR": "instance floor (fail closed)",
     "BUILD": "configuration builds",
     "unclassified": "construct the rule tables do not know",
@@ -102,6 +107,8 @@ def rules_C13(ctx):
     r_shrink.rule_shrink_guards(ctx)
     r_shrink.rule_realloc_lands(ctx)
     r_api.rule_wrappers_delegate(ctx, rule="C13-wrap", only=("try_shrink_to", "try_shrink_to_fit"))
+    # "keeps the text": a shrink that fails has not touched the string
+    ctx.take_ts(["R-erratomic", "R2"], fn_filter=lambda fn: "shrink" in fn)
     r_layout.rule_capacity_roots(ctx)
 
 
@@ -112,6 +119,8 @@ def rules_C11(ctx):
     r_layout.rule_reserve_post(ctx)
     r_layout.rule_layout_agreement(ctx)
     r_shrink.rule_realloc_lands(ctx, rule="C11-lands")
+    # within capacity nothing allocates: the appends reach the allocator only through reserve
+    r_growth.rule_growth_via_reserve(ctx, rule="C11-append")
     # the public reserve / with_capacity / appends reach the storage layer's operation on every path
     r_api.rule_wrappers_delegate(ctx, rule="C11-wrap", only=("try_reserve", "try_with_capacity", "try_push_str", "try_push", "try_insert_str", "try_insert"))
 
@@ -120,6 +129,8 @@ def rules_C18(ctx):
     r_own.rule_U1(ctx, include_panic=False, rule="U1")
     r_retain.rule_U2(ctx)
     r_retain.rule_extend_inplace(ctx)
+    # the predicate runs inside Repr::retain (whose guard publishes what was kept), for every storage state
+    r_api.rule_wrappers_delegate(ctx, rule="C18-wrap", only=("try_retain",))
     r_retain.rule_items_appended(ctx, rule="C18-items", traits=("core::iter::traits::collect::FromIterator", "core::iter::traits::collect::Extend"))
 
 
@@ -136,6 +147,9 @@ def rules_C01(ctx):
     r_reach.rule_clone_replaces(ctx, rule="T6-clone")
     # the bytes moved by the mutators and copied by the constructors are the right ones (affine forms)
     r_moves.rule_moves(ctx)
+    r_moves.rule_retain_loop(ctx)
+    # len / is_empty / as_str / as_bytes are the storage layer's views; is_empty is len() == 0
+    r_deleg.rule_views(ctx, rule="T10-views")
     r_api.rule_wrappers_delegate(ctx, rule="T8-wrap")
 
 
@@ -203,6 +217,9 @@ def rules_C20(ctx):
     r_config.rule_debug_regions(ctx)
     r_config.rule_unchecked_sites(ctx)
     r_config.rule_cargo_features(ctx)
+    # overflow-checked arithmetic on caller-supplied sizes panics in debug builds and wraps in
+    # release builds: sizes only go through checked_* / saturating_* operations
+    r_size.rule_size_taint(ctx, rule="C20-taint")
 
 
 def rules_C08(ctx):
